@@ -406,6 +406,7 @@ type e2egOp struct {
 	Keys  []int    `json:"keys"`  // write: units in frame order
 	N     int      `json:"n"`
 	Eou   bool     `json:"eou"`
+	NoAC  bool     `json:"noac"` // open: auto-commit disabled, commits are explicit ops
 }
 
 type e2egCase struct {
@@ -415,6 +416,9 @@ type e2egCase struct {
 type e2egOut struct {
 	Steps []e2eStep  `json:"steps"`
 	Read  [][2][]int64 `json:"read"` // per group 1..3: (index stamps, data values)
+	// for every stored series of every group channel: domain end (ns) minus the time of
+	// its last sample (ns); a committed domain ends 1ns after its last sample
+	EndGap []int64 `json:"endgap"`
 	Err   string     `json:"err,omitempty"`
 }
 
@@ -441,7 +445,7 @@ func unitChannels(units [][2]int) ([]cesium.ChannelKey, []xcontrol.Authority) {
 }
 
 func runE2EG(c *e2egCase) *e2egOut {
-	out := &e2egOut{}
+	out := &e2egOut{EndGap: []int64{}}
 	ctx := context.Background()
 	db, err := cesium.Open(ctx, "", cesium.WithFS(xfs.NewMem()))
 	if err != nil {
@@ -483,7 +487,7 @@ func runE2EG(c *e2egCase) *e2egOut {
 				Authorities:              as,
 				ControlSubject:           xcontrol.Subject{Key: "s" + strconv.Itoa(o.Subj)},
 				Sync:                     new(true),
-				EnableAutoCommit:         new(true),
+				EnableAutoCommit:         new(!o.NoAC),
 				AutoIndexPersistInterval: cesium.AlwaysIndexPersistOnAutoCommit,
 				ErrOnUnauthorized:        &eou,
 			})
@@ -493,6 +497,22 @@ func runE2EG(c *e2egCase) *e2egOut {
 				break
 			}
 			writers[o.W] = w
+		case "commit":
+			w, ok := writers[o.W]
+			if !ok {
+				st.St = "skip"
+				break
+			}
+			end, err := w.Commit()
+			if err != nil {
+				st.St = errClass(err)
+				st.Err = err.Error()
+				break
+			}
+			if end > 0 {
+				// the reported end of the committed data: 1ns after a sample
+				st.TS = append(st.TS, int64((end-1)/telem.SecondTS), int64((end-1)%telem.SecondTS))
+			}
 		case "write":
 			w, ok := writers[o.W]
 			if !ok {
@@ -576,11 +596,19 @@ func runE2EG(c *e2egCase) *e2egOut {
 		for k, s := range fr.Entries() {
 			switch k {
 			case gIdx(u):
-				for _, v := range telem.UnmarshalSeries[telem.TimeStamp](s) {
+				vs := telem.UnmarshalSeries[telem.TimeStamp](s)
+				for _, v := range vs {
 					pair[0] = append(pair[0], int64(v/telem.SecondTS))
 				}
+				if len(vs) > 0 {
+					out.EndGap = append(out.EndGap, int64(s.TimeRange.End-vs[len(vs)-1]))
+				}
 			case gData(u):
-				pair[1] = append(pair[1], telem.UnmarshalSeries[int64](s)...)
+				vs := telem.UnmarshalSeries[int64](s)
+				pair[1] = append(pair[1], vs...)
+				if len(vs) > 0 {
+					out.EndGap = append(out.EndGap, int64(s.TimeRange.End)-vs[len(vs)-1]*int64(telem.SecondTS))
+				}
 			}
 		}
 		out.Read = append(out.Read, pair)
